@@ -124,7 +124,7 @@ struct Exec {
     uint8_t choices[MAXPTS];
     int total_cost;
     uint64_t trace_hash, transitions, timeouts, user_hash;
-    bool unlock_points, delay_bounded;
+    bool unlock_points, delay_bounded, cond_entry_points;
     std::vector<std::pair<std::string, std::string>>* fails;
     std::string* outcome;
     std::vector<uint64_t>* state_hashes;
@@ -351,6 +351,14 @@ int pthread_mutex_unlock(pthread_mutex_t* m) {
 static int cond_wait_common(pthread_cond_t* c, pthread_mutex_t* m, bool timed, int64_t deadline) {
     Th* t = cur;
     int mo = ordinal(m), co = ordinal(c);
+    if (E.cond_entry_points) {
+        // A thread can be preempted between evaluating its wait predicate (which may read an atomic flag that another thread
+        // stores without holding the mutex) and entering the wait. It still owns the mutex here and is not yet a waiter: a
+        // notify that happens now is lost for it. Without this point that window could not be explored (the wait itself is
+        // atomic: release the mutex and join the waiters).
+        t->st = S_AT_POINT; t->obj = -5;
+        reschedule(t);
+    }
     E.owner[mo] = -1;
     t->st = S_WAIT_COND; t->obj = mo; t->cond = co; t->timed = timed; t->deadline_ns = deadline; t->wake_result = 0;
     reschedule(t);
@@ -562,7 +570,7 @@ void run_once(const std::function<void()>& body, const uint8_t* prefix, int pref
     E.vclock_ns = 1000000LL * 1000000000LL;
     E.prefix = prefix; E.prefix_len = prefix_len;
     E.trace_hash = 0; E.transitions = 0; E.timeouts = 0; E.user_hash = 0;
-    E.unlock_points = opt.unlock_points; E.delay_bounded = opt.delay_bounded;
+    E.unlock_points = opt.unlock_points; E.delay_bounded = opt.delay_bounded; E.cond_entry_points = opt.cond_entry_points;
     E.fails = &rr.fails; E.outcome = &rr.outcome;
     E.state_hashes = want_states ? &rr.state_hashes : nullptr;
     E.trace_log = &rr.trace_log;
